@@ -371,7 +371,29 @@ fn collect_index_keys(t: &tsmodel::Ty, out: &mut Vec<tsmodel::Ty>) {
     }
 }
 
+/// A transparent wrapper is its content in every spelling, the flattened one included.
+fn wrapper_flatten(log: &mut Log) {
+    macro_rules! same_flattened {
+        ($($w:ty => $t:ty),* $(,)?) => {$(
+            let a = guarded(|| <$w as TS>::inline_flattened());
+            let b = guarded(|| <$t as TS>::inline_flattened());
+            let mut fails = vec![];
+            if a != b {
+                fails.push(json!({"kind": "wrapper-flattened-differs", "reason": format!("inline_flattened() of the wrapper is {a:?}, of its content {b:?}")}));
+            }
+            log.emit(json!({"ev": "lib", "monitor": "C12", "rust": concat!(stringify!($w), " (flattened)"), "family": "wrapper-flatten", "depth": 1,
+                "name": a, "inline": null, "samples": 0, "witnesses": 0, "checked": 1, "generics": [], "fails": fails, "example": null}));
+        )*};
+    }
+    same_flattened!(
+        Box<LK> => LK, std::rc::Rc<LK> => LK, std::sync::Arc<LK> => LK, std::borrow::Cow<'static, LK> => LK, std::cell::Cell<LK> => LK,
+        std::cell::RefCell<LK> => LK, std::sync::Mutex<LK> => LK, std::sync::RwLock<LK> => LK, &'static LK => LK,
+        Box<LU> => LU, std::sync::Arc<Box<LK>> => LK,
+    );
+}
+
 pub fn c12(args: &Args, log: &mut Log) {
+    wrapper_flatten(log);
     let env = env_for(log);
     for e in table(args.thorough()) {
         let mut fails = vec![];
